@@ -16,7 +16,7 @@ import (
 	"verifharness/internal/val"
 )
 
-var c16Floor = []string{"tpl.echo", "tpl.where", "tpl.in", "tpl.between", "tpl.func", "tpl.limit", "tpl.adjacent", "tpl.repeat", "tpl.protected.single", "tpl.protected.double", "tpl.protected.backtick", "tpl.protected.backtick-backslash", "tpl.protected.comment", "tpl.pg-ident", "tpl.idiomatic-array", "comment.tab", "comment.backslash-eol", "arg.float.huge", "err.missing.huge", "comment.hash", "comment.block-not-nested", "comment.minus-minus", "comment.banner", "str.bad-utf8", "tpl.pg-ident.backslash-end", "tpl.badutf8", "tpl.protected.backslash", "err.nan",
+var c16Floor = []string{"tpl.echo", "tpl.where", "tpl.in", "tpl.between", "tpl.func", "tpl.limit", "tpl.adjacent", "tpl.repeat", "tpl.protected.single", "tpl.protected.double", "tpl.protected.backtick", "tpl.protected.backtick-backslash", "tpl.protected.comment", "tpl.pg-ident", "tpl.idiomatic-array", "comment.tab", "comment.backslash-eol", "arg.float.huge", "err.missing.huge", "comment.hash", "comment.block-not-nested", "comment.minus-minus", "comment.banner", "str.bad-utf8", "tpl.pg-ident.backslash-end", "tpl.pg-ident.minus-negative", "tpl.badutf8", "tpl.protected.backslash", "err.nan",
 	"arg.string", "arg.int", "arg.int.native", "arg.float.native", "arg.negint", "arg.float", "arg.bool", "arg.nil", "str.quote", "str.backslash", "str.comment", "str.control", "str.keyword", "str.multibyte", "err.missing", "err.unused", "err.dollar0", "prepared", "concurrent"}
 
 func init() {
@@ -281,6 +281,8 @@ func c16Run(c *fw.Case) {
 		kind, variant = "tpl.protected.comment", 6
 	case "tpl.pg-ident.backslash-end":
 		kind, variant = "tpl.pg-ident", 1
+	case "tpl.pg-ident.minus-negative":
+		kind, variant = "tpl.pg-ident", 2
 	}
 	if force == "concurrent" {
 		force = ""
@@ -434,6 +436,16 @@ func c16Run(c *fw.Case) {
 			t.pieces[1] = " AS \"a\\\\\", "
 			t.note = "pg-backslash-alias"
 			feats = append(feats, "tpl.pg-ident.backslash-end")
+		} else if variant == 2 || c.Chance(0.4) {
+			// a negative number right behind a minus sign: two minus signs that
+			// are no comment, in front of double-quoted identifiers
+			m := A("negint")
+			if n, ok := t.args[m].(int64); ok && n > 0 {
+				t.args[m] = -n
+			}
+			t.pieces, t.slots = []string{"SELECT ", " AS a, ", " AS b, 10-", " AS m, \"s1\" AS n, \"rid\" FROM t"}, []int{a, b, m}
+			t.note = "pg-minus"
+			feats = append(feats, "tpl.pg-ident.minus-negative")
 		}
 	case "tpl.idiomatic-array":
 		// evaluated under IdomaticArrays: the array literals of the template
@@ -611,7 +623,13 @@ func c16Run(c *fw.Case) {
 			if t.note == "pg-backslash-alias" {
 				first = "a\\"
 			}
-			want = append(want, map[string]any{first: t.args[0], "b": t.args[1], "n": r["s1"], "rid": r["rid"]})
+			row := map[string]any{first: t.args[0], "b": t.args[1], "n": r["s1"], "rid": r["rid"]}
+			if t.note == "pg-minus" {
+				if n, ok := t.args[2].(int64); ok {
+					row["m"] = 10 - float64(n)
+				}
+			}
+			want = append(want, row)
 		}
 		det["expected"] = val.Show(want)
 		if !(len(want) == 0 && len(o.Rows) == 0) && !val.SameSeq(o.Rows, want) {
